@@ -501,7 +501,7 @@ def evaluate(ctx, cases, label, lloyd=True):
             else:
                 key, what = "dual-check", f"check_dual rejected the lattice: {diag}"
             if exact_boundary:
-                key = "boundary-vertex-mod1"
+                # (was the defect fixed by /repo 37048fb: floor / %1 used the [0,1) convention against the (0,1] classification)
                 what = ("a centroid lies exactly on the closed side x=1 or y=1 of the cell (0,1]^2; " + what +
                         f"; points {points.tolist()}")
                 ex["exact_boundary_failures"] = ex.get("exact_boundary_failures", 0) + 1
@@ -634,7 +634,8 @@ def gen_cases(tier, seed, count=None):
 
 def run(ctx):
     ctx.res.rule = ("point styles uniform/clustered/two_cluster/jittered/boundary/collinear of harness/gen.py, N=2..60 (thorough ..220) skewed to N<=13, both shift_vertices, "
-                    "coordinates either rounded to 30 binary digits (replication p+k exact) or raw float64; a case counts (non-trivial, distinct by hash of points+shift) only when its "
+                    "coordinates either rounded to 30 binary digits (replication p+k exact) or raw float64; plus a 'grid' family (N=2..13 distinct points of a 1/8, 1/16, 1/32 grid, where "
+                    "centroids fall EXACTLY on the cell boundary: evaluated for shift_vertices=True, where the float centroid is exact); a case counts (non-trivial, distinct by hash of points+shift) only when its "
                     "independent certificate validates, the density precondition holds and it is generic; everything else is in 'skipped'")
     evaluate(ctx, gen_cases(ctx.tier, ctx.seed), "S")
 
